@@ -170,6 +170,8 @@ VOCAB = {
         # Generated/StyleFn.v
         ("Effects", "index_iter"): shape("g_eff_index_iter", "in", [], IITER),
         ("Effects", "render"): shape("g_eff_render", "in", [], EFFD),
+        ("Effects", "is_plain"): shape("g_eff_is_plain", "in", [], BOOL),
+        ("Style", "is_plain"): shape("g_st_is_plain", "in", [], BOOL),
         ("Style", "fg_color"): shape("rn_st_fg_color", "in", [("in", ("opt", COLOR))], STYLE),
         ("Style", "bg_color"): shape("rn_st_bg_color", "in", [("in", ("opt", COLOR))], STYLE),
         ("Color", "into"): m_identity,
@@ -322,7 +324,9 @@ def register(generators, gm):
             ], "", "", shapes))
             out.append(translate(sty, voc("ekind", []), [
                 ("write_to", "Style", "gr_style_write_to", {}),
-                ("write_reset_to", "Style", "gr_style_write_reset_to", {}),
+                # `monadic`: an io function stays option-valued however its body is spelled (with early returns nothing
+                # in it binds, and the emitter would type it as a total function: the theorems say `= Some ..`)
+                ("write_reset_to", "Style", "gr_style_write_reset_to", {"monadic": True}),
             ], "", "", shapes))
             # ---- color.rs: conversions and the `on` / `on_default` constructors of a Style
             v = voc("unit", COLOR_RS)
